@@ -201,6 +201,8 @@ pub unsafe fn avx_fft_helper_immut<T>(
     required_scratch: usize,
     chunk_fn: impl FnMut(&[T], &mut [T], &mut [T]),
 ) {
+    #[cfg(feature = "verif_hooks")]
+    crate::verif_hooks::simd_entry(crate::verif_hooks::CPU_AVX | crate::verif_hooks::CPU_FMA);
     fft_helper_immut(
         input,
         output,
@@ -222,6 +224,8 @@ pub unsafe fn avx_fft_helper_outofplace<T>(
     required_scratch: usize,
     chunk_fn: impl FnMut(&mut [T], &mut [T], &mut [T]),
 ) {
+    #[cfg(feature = "verif_hooks")]
+    crate::verif_hooks::simd_entry(crate::verif_hooks::CPU_AVX | crate::verif_hooks::CPU_FMA);
     fft_helper_outofplace(
         input,
         output,
@@ -242,6 +246,8 @@ pub unsafe fn avx_fft_helper_inplace<T>(
     required_scratch: usize,
     chunk_fn: impl FnMut(&mut [T], &mut [T]),
 ) {
+    #[cfg(feature = "verif_hooks")]
+    crate::verif_hooks::simd_entry(crate::verif_hooks::CPU_AVX | crate::verif_hooks::CPU_FMA);
     fft_helper_inplace(buffer, scratch, chunk_size, required_scratch, chunk_fn)
 }
 
